@@ -95,7 +95,11 @@ _e2e('C03', 'Families: a fault at every S3 call (before/after effect), every sou
             'fault budgets; hangs after a fault count as not reported.')
 _e2e('C04', 'Deadlock/livelock detection by the runtime over limits in {1,2}, cancel sweeps, '
             'single faults, re-entrant subscribers, mixed transfers and systematic '
-            'one-deviation schedules.')
+            'one-deviation schedules.  The barrier that releases a download\'s final task '
+            '(CountCallbackInvoker) has its own specification (Invoker.tla, TLC exhaustive '
+            'with 1 and 3 threads); every explored transition is replayed into the real class '
+            'and free interleavings of 2-4 real threads are validated as linearizable '
+            '(Invoker_Trace.tla).')
 _e2e('C05', 'Families: multipart uploads/copies x fault at every call (before/after effect) x '
             'source/callback faults x cancel at every step; the oracle is the fake '
             "service's own begin/end log per upload id.")
